@@ -207,72 +207,92 @@ def run(cx):
                     r.stat.failed += 1
 
     # ---- C15-ULTRA ---------------------------------------------------------------------------
-    r = cx.rule("C15-ULTRA", "the ultrasonic helper retries at most 3 times, waits out the 60 ms minimum interval (only once the clock is running) before triggering, stamps the trigger time after the echo, converts with 0.0343/2 and falls back to the last good reading, else 400", floor=12)
+    r = cx.rule("C15-ULTRA", "the generated ultrasonic helper evaluated (C semantics) against a scripted clock and echo line over call sequences: every reading is echo*0.0343/2 cm; once the millisecond clock is running two trigger pulses are never less than 60 ms apart; at most three triggers per call; after three time-outs the last good reading is returned, 400 if there never was one; the trigger pin and the echo pin are the declared ones", floor=40, exhaustive=True)
     res = pe.emit_program(setup=[l2.decl_node("Ultrasonic")], loop=[cls["ExprStmt"](expr="__redu_ultrasonic_measure_dev()")], ultrasonic={"dev"})
     if res.raised or "__redu_ultrasonic_measure_dev" not in (res.text or ""):
         raise AnalysisError("ultrasonic helper not emitted")
     fn = l2.functions_of(res.text, ["__redu_ultrasonic_measure_dev"])["__redu_ultrasonic_measure_dev"][0]
-    b = fn["body"]
-    decls = {s["name"]: s for s in all_stmts(b) if s["k"] == "decl"}
-    def init_of(n_):
-        return decls[n_]["init"] if n_ in decls else None
-    r.check(init_of("__redu_max_attempts_dev") == ("lit", 3), "ultra/max-attempts=3", (em, em.func("emit")), f"retry bound is {show(init_of('__redu_max_attempts_dev'))}")
-    r.check(init_of("__redu_min_interval_ms_dev") == ("lit", 60), "ultra/min-interval=60ms", (em, em.func("emit")), f"minimum interval is {show(init_of('__redu_min_interval_ms_dev'))}")
-    for nm in ("__redu_last_trigger_ms_dev", "__redu_last_distance_dev", "__redu_has_distance_dev"):
-        r.check(nm in decls and decls[nm]["static"], f"ultra/static[{nm}]", (em, em.func("emit")), f"{nm} must be a function static (state kept between calls)")
-    r.check(init_of("__redu_last_trigger_ms_dev") == ("lit", 0) and init_of("__redu_has_distance_dev") == ("lit", False), "ultra/initial-state", (em, em.func("emit")), "initial back-off state changed")
-    loops = [s for s in b if s["k"] == "for"]
-    r.check(len(loops) == 1 and show(loops[0]["cond"]) == "(__redu_attempt_dev < __redu_max_attempts_dev)" and loops[0]["init"][0]["init"] == ("lit", 0) and show(loops[0]["inc"]) == "++__redu_attempt_dev", "ultra/loop=attempts", (em, em.func("emit")), "retry loop header changed")
-    if loops:
-        lb = loops[0]["body"]
-        # order of events inside one attempt
-        ev = []
-        for s in lb:
-            if s["k"] == "if":
-                ev.append(("if", show(s["cond"]), s))
-            elif s["k"] == "expr":
-                ev.append(("x", show(s["e"]), s))
-            elif s["k"] == "decl":
-                ev.append(("d", s["name"], s))
-        guard = [e for e in ev if e[0] == "if" and any(True for _ in all_calls(e[2]["then"], "delay"))]
-        okg = len(guard) == 1 and guard[0][1] == "(__redu_last_trigger_ms_dev != 0)"
-        r.check(okg, "ultra/back-off-guarded-by-clock-running", (em, em.func("emit")), f"the 60 ms wait is guarded by `{guard[0][1] if guard else '?'}`; it must apply whenever a previous trigger time exists (last_trigger != 0)")
-        if guard:
-            inner = [s for s in guard[0][2]["then"] if s["k"] == "if"]
-            oki = len(inner) == 1 and show(inner[0]["cond"]) == "(__redu_elapsed_ms_dev < __redu_min_interval_ms_dev)" and [show(c) for c in all_calls(inner[0]["then"], "delay")] == ["delay((__redu_min_interval_ms_dev - __redu_elapsed_ms_dev))"]
-            r.check(oki, "ultra/waits-remaining-interval", (em, em.func("emit")), "the wait must be delay(min_interval - elapsed) when elapsed < min_interval")
-            el = [s for s in guard[0][2]["then"] if s["k"] == "decl" and s["name"] == "__redu_elapsed_ms_dev"]
-            r.check(bool(el) and show(el[0]["init"]) == "(__redu_now_ms_dev - __redu_last_trigger_ms_dev)", "ultra/elapsed=now-last", (em, em.func("emit")), "elapsed time formula changed")
-        names = [e[1] for e in ev]
-        def idx(pred):
-            for i, e in enumerate(ev):
-                if pred(e):
-                    return i
-            return -1
-        i_guard = idx(lambda e: e[0] == "if" and "last_trigger" in e[1])
-        i_trig = idx(lambda e: e[0] == "x" and e[1] == "digitalWrite(10, 1)")
-        i_pulse = idx(lambda e: e[0] == "d" and e[1] == "__redu_duration_dev")
-        i_stamp = idx(lambda e: e[0] == "x" and e[1] == "__redu_last_trigger_ms_dev = millis()")
-        r.check(0 <= i_guard < i_trig < i_pulse < i_stamp, "ultra/order:wait<trigger<echo<stamp", (em, em.func("emit")), f"event order in an attempt: guard@{i_guard} trigger@{i_trig} pulseIn@{i_pulse} stamp@{i_stamp}")
-        r.check(show(init_of("__redu_duration_dev")) == "pulseIn(11, 1, 30000)", "ultra/pulseIn(echo,HIGH,30ms)", (em, em.func("emit")), f"echo measurement is `{show(init_of('__redu_duration_dev'))}`")
-        ok_ = [e for e in ev if e[0] == "if" and e[1] == "(__redu_duration_dev > 0)"]
-        r.check(len(ok_) == 1, "ultra/success-iff-duration>0", (em, em.func("emit")), "a reading counts only when the echo duration is positive")
-        if ok_:
-            th = ok_[0][2]["then"]
-            d = [s for s in th if s["k"] == "decl" and s["name"] == "__redu_distance_dev"]
-            okd = False
-            if d:
-                e_ = d[0]["init"]
-                okd = (e_[0] == "bin" and e_[1] == "/" and e_[3][0] == "lit" and e_[3][1] == 2.0 and e_[2][0] == "bin" and e_[2][1] == "*"
-                       and lname(e_[2][2]) == "__redu_duration_dev" and e_[2][3][0] == "lit" and abs(e_[2][3][1] - 0.0343) < 1e-6)
-            r.check(okd, "ultra/distance=duration*0.0343/2", (em, em.func("emit")), f"conversion is `{show(d[0]['init']) if d else '?'}`")
-            txt = [show(s["e"]) for s in th if s["k"] == "expr"]
-            r.check("__redu_last_distance_dev = __redu_distance_dev" in txt and "__redu_has_distance_dev = true" in txt, "ultra/remembers-last-good", (em, em.func("emit")), f"on success: {txt}")
-            rets = [show(s["e"]) for s in th if s["k"] == "return"]
-            r.check(rets == ["__redu_distance_dev"], "ultra/returns-measured", (em, em.func("emit")), f"on success returns {rets}")
-    tail = [s for s in b if s["k"] in ("if", "return")]
-    okt = len(tail) >= 2 and tail[-2]["k"] == "if" and show(tail[-2]["cond"]) == "__redu_has_distance_dev" and [show(s["e"]) for s in tail[-2]["then"] if s["k"] == "return"] == ["__redu_last_distance_dev"] and tail[-1]["k"] == "return" and tail[-1]["e"] == ("lit", 400.0)
-    r.check(okt, "ultra/fallback=last-good-else-400", (em, em.func("emit")), "after three failed attempts the helper must return the last good reading, 400 if there is none")
+    from .. import ckern
+    import itertools
+    TRIG, ECHO = 10, 11       # pins of l2.decl_node("Ultrasonic")
+    n_bad = 0
+    # a call sequence: per call the gap (ms of other work before it) and the echo durations the sensor answers with (0 = time-out)
+    echo_sets = ([1000], [0, 1000], [0, 0, 2500], [0, 0, 0], [29999], [58])
+    gaps = (0, 5, 59, 60, 200)
+    seqs = [list(zip(g_, e_)) for n_ in (1, 2, 3) for g_ in itertools.product(gaps, repeat=n_) for e_ in itertools.product(echo_sets, repeat=n_) if n_ < 3 or (g_[0] == 5 and g_[1] in (0, 60))]
+    seqs = seqs[:: max(1, len(seqs) // 260)]
+    for start_clock in (1000, 7, 2 ** 32 - 100, 2 ** 32 - 45):      # the last two: the 32-bit millisecond counter rolls over during the sequence
+        for seq in seqs:
+            clock = [start_clock]
+            triggers, pins_ok = [], [True]
+            k = ckern.Kern(env={"HIGH": 1, "LOW": 0})
+            answers = []
+
+            def h_millis(a_):
+                return clock[0] % (2 ** 32)
+
+            def h_delay(a_):
+                clock[0] += int(a_[0])
+                return 0
+
+            def h_dw(a_):
+                if a_[0] != TRIG:
+                    pins_ok[0] = False
+                if a_[1] == 1:
+                    triggers.append(clock[0])
+                return 0
+
+            def h_pulse(a_):
+                if a_[0] != ECHO:
+                    pins_ok[0] = False
+                d_ = answers.pop(0) if answers else 0
+                clock[0] += 30 if d_ == 0 else max(1, d_ // 1000)       # a time-out costs 30 ms, an echo its own length
+                return d_
+            k.call_hooks.update({"millis": h_millis, "delay": h_delay, "digitalWrite": h_dw, "pulseIn": h_pulse, "delayMicroseconds": lambda a_: 0})
+            last_good, why = None, None
+            for gap, echoes in seq:
+                clock[0] += gap
+                answers[:] = list(echoes)
+                n0 = len(triggers)
+                try:
+                    try:
+                        k.block(fn["body"])
+                        got = None
+                    except ckern._Return as r_:
+                        got = r_.v
+                except ckern.KernUnsupported as e:
+                    raise AnalysisError(f"ultrasonic helper left the evaluable subset: {e}")
+                used = [e_ for e_ in echoes[:3]]
+                good = next((e_ for e_ in used if e_ > 0), None)
+                n_trig = len(triggers) - n0
+                want_trig = (used.index(good) + 1) if good is not None else 3
+                if good is not None:
+                    want = ckern.f32(ckern.f32(ckern.f32(float(good)) * ckern.f32(0.0343)) / 2.0)
+                    last_good = want
+                else:
+                    want = last_good if last_good is not None else 400.0
+                if got is None or abs(float(got) - want) > 1e-3 * max(1.0, want):
+                    why = f"a call answered with echoes {list(echoes)} returns {got!r}; the law gives {want:.3f}"
+                elif n_trig != want_trig:
+                    why = f"a call answered with echoes {list(echoes)} triggers the sensor {n_trig} time(s); the law is {want_trig} (retry only after a time-out, at most three)"
+                if why:
+                    break
+            if why is None and not pins_ok[0]:
+                why = "a pin other than the declared trigger/echo pin is driven or read"
+            if why is None:
+                close = [(a_, b_) for a_, b_ in zip(triggers, triggers[1:]) if b_ - a_ < 60]
+                if close:
+                    why = f"trigger pulses at {close[0][0]} ms and {close[0][1]} ms are only {close[0][1] - close[0][0]} ms apart (the sensor needs 60 ms)"
+            if why is None:
+                r.ok(None)
+            else:
+                n_bad += 1
+                if n_bad <= 3:
+                    tag = "min-interval" if "apart" in why else "attempts" if "triggers the sensor" in why else "reading" if "returns" in why else "pins"
+                    r.fail(f"ultra/{tag}", (em, em.func("emit")), f"clock starting at {start_clock} ms, calls (gap ms, echoes us) {seq}: {why}", detail={"sequence": [[g_, list(e_)] for g_, e_ in seq], "start": start_clock})
+                else:
+                    r.stat.obligations += 1
+                    r.stat.failed += 1
     out = dl.Interp(pm, opaque={"ast.parse": ast.parse}).call(tce, ["dev.measure_distance()", {}, {"ultrasonic_names": {"dev"}}])
     r.check(out.kind == "return" and out.value == "__redu_ultrasonic_measure_dev()", "measure_distance/calls-helper", (pm, tce), f"dev.measure_distance() -> {out!r}")
 
